@@ -1,5 +1,6 @@
 import PqlModel.Props.C09
 import PqlModel.Props.C09b
+import PqlModel.Props.C09Gaps
 #print axioms Pql.C09.C09_partition
 #print axioms Pql.C09.C09_rescan
 #print axioms Pql.C09.C09_rescan_any
@@ -7,3 +8,7 @@ import PqlModel.Props.C09b
 #print axioms Pql.C09.C09_accessors
 #print axioms Pql.C09.C09_refines_step
 #print axioms Pql.C09.C09_refines
+#print axioms Pql.C09.C09_skip_is_trivia
+#print axioms Pql.C09.C09_trivia_is_skip
+#print axioms Pql.C09.C09_gaps_trivia
+#print axioms Pql.C09.C09_gaps_rescan_nil
